@@ -393,7 +393,11 @@ class NetworkServiceSliver(BaseSliver):
                 flag = iA.prop_diff(iB)
 
                 if iA.get_type() == InterfaceType.DedicatedPort:
-                    if iA.diff(iB):
+                    # only child interfaces count here - the port's own properties are already in flag
+                    sub_diff = iA.diff(iB)
+                    if sub_diff and (len(sub_diff.added.interfaces) > 0 or
+                                     len(sub_diff.removed.interfaces) > 0 or
+                                     len(sub_diff.modified.interfaces) > 0):
                         flag |= WhatsModifiedFlag.SUB_INTERFACES
 
                 if flag != WhatsModifiedFlag.NONE:
